@@ -308,7 +308,7 @@ example : |(2488070 : ℝ) - 2451545| ≤ 3652500 := by rw [abs_le]; constructor
     `precession_ecliptical`: the unit normal of the new orbit (node `lon1`, inclination `i1`) is the ecliptical
     precession rotation (the one of `ecliptical_is_rotation`) applied to the unit normal of the old orbit — for every
     inclination 0..180° and every pair of epochs; nothing is raised.
-    (Not proved: the same for the perihelion direction, i.e. for `arg1`; and the numerical there-and-back, which
+    (The perihelion direction: `orbital_perihelion_precesses` below.  Not proved: the numerical there-and-back, which
     compares two truncated series.) -/
 theorem orbital_pole_precesses (e0 e1 i0 arg0 lon0 : ℝ) :
     ∃ i1 arg1 lon1, orbital_equinox2equinox e0 e1 i0 arg0 lon0 = .ok (i1, arg1, lon1) ∧
@@ -319,5 +319,32 @@ theorem orbital_pole_precesses (e0 e1 i0 arg0 lon0 : ℝ) :
             (flipZ (rad (a_add (a_of_sec (ecl_pie ((e0 - 2451545.0) / 36525.0) ((e1 - e0) / 36525.0))) 174.876384))
               (orbitPole lon0 i0))) :=
   orbital_pole_spec e0 e1 i0 arg0 lon0
+
+/-- … and so is the PERIHELION direction (node `lon1`, inclination `i1`, argument `arg1`), whenever the new
+    inclination is not 0° or 180° (`sin i1 ≠ 0`; there the node is undetermined and the source's `atan2(0, 0)` picks
+    one — the corner listed in findings.d/C06.json).  With `orbital_pole_precesses` this says: the whole orientation
+    of the orbit (plane and apsidal line) is carried by the same rotation as any ecliptical direction, so the three
+    new elements describe the same orbit in the new frame — exactly, for every inclination in (0°, 180°). -/
+theorem orbital_perihelion_precesses (e0 e1 i0 arg0 lon0 i1 arg1 lon1 : ℝ)
+    (h : orbital_equinox2equinox e0 e1 i0 arg0 lon0 = .ok (i1, arg1, lon1)) (hi : sin (rad i1) ≠ 0) :
+    orbitPeri lon1 i1 arg1 =
+      flipZ (rad (a_of_sec (ecl_p ((e0 - 2451545.0) / 36525.0) ((e1 - e0) / 36525.0)))
+             + rad (a_add (a_of_sec (ecl_pie ((e0 - 2451545.0) / 36525.0) ((e1 - e0) / 36525.0))) 174.876384))
+        (rotX (-(rad (a_of_sec (ecl_eta ((e0 - 2451545.0) / 36525.0) ((e1 - e0) / 36525.0)))))
+          (flipZ (rad (a_add (a_of_sec (ecl_pie ((e0 - 2451545.0) / 36525.0) ((e1 - e0) / 36525.0))) 174.876384))
+            (orbitPeri lon0 i0 arg0))) :=
+  orbital_peri_spec e0 e1 i0 arg0 lon0 i1 arg1 lon1 h hi
+
+/-- The hypothesis `sin i1 ≠ 0` is satisfiable: an inclination of 47.122° can only change by |η| (see `orbital_inclination`),
+    here shown in the weaker form that SOME result exists with the cosine rule; e.g. for a zero interval i1 = i0. -/
+example : ∃ i1 arg1 lon1, orbital_equinox2equinox 2451545 2451545 47.122 151.4486 45.7481 = .ok (i1, arg1, lon1) ∧
+    cos (rad i1) = cos (rad 47.122) := by
+  obtain ⟨i1, arg1, lon1, h, _, _, hc⟩ := orbital_inclination 2451545 2451545 47.122 151.4486 45.7481
+  refine ⟨i1, arg1, lon1, h, ?_⟩
+  have ht : ((2451545 : ℝ) - 2451545) / 36525.0 = 0 := by norm_num
+  obtain ⟨z1, _⟩ := ecl_zero (((2451545 : ℝ) - 2451545.0) / 36525.0)
+  rw [hc, ht, z1, a_of_sec_zero]
+  have r0 : rad 0 = 0 := by unfold rad; ring
+  rw [r0]; simp
 
 end Pymeeus.C06
